@@ -350,3 +350,48 @@ Proof.
   unfold sm2_mul. destruct d as [|q|q]; cbn [pmul]; try reflexivity.
   induction q as [q IH|q IH|]; cbn [pmul_pos]; [rewrite IH|rewrite IH|]; reflexivity.
 Qed.
+
+(* ---------------- pre-computed encryption ---------------- *)
+(* sm2_encrypt_pre_compute stores exactly (k_i, affine [k_i]G) in every one of the 8 slots, for any
+   Jacobian Z coordinates, provided the single shared inversion is correct (batch_inv_correct) *)
+Theorem enc_pre_compute_eq_partial zs en ks en' :
+  draw_ks 8 en = Some (ks, en') ->
+  (let Zs := map (fun i => jac_Z ZOps (sm2_mulG ZOps (nth i ks 0)) (nth i zs 1)) (seq 0 8) in
+   let T := nth 7 (f_list sm2_p Zs) 0 in (T * inv_p ZOps T) mod sm2_p = 1 mod sm2_p) ->
+  enc_pre_compute ZOps zs en =
+  Some (map (fun k => (k, (get_x ZOps (sm2_mulG ZOps k), get_y ZOps (sm2_mulG ZOps k)))) ks, en').
+Proof.
+  intros Hd Hinv. pose proof (draw_ks_length _ _ _ _ Hd) as Hl. cbv zeta in Hinv.
+  unfold enc_pre_compute. rewrite Hd. f_equal. f_equal.
+  transitivity (map (fun k => (k, (get_x ZOps (sm2_mulG ZOps k), get_y ZOps (sm2_mulG ZOps k))))
+                    (map (fun i => nth i ks 0) (seq 0 8)));
+    [|f_equal; rewrite <- Hl; symmetry; apply list_as_map_nth].
+  rewrite map_map. apply map_ext_in. intros i Hi. apply in_seq in Hi.
+  set (Zs := map (fun i => jac_Z ZOps (sm2_mulG ZOps (nth i ks 0)) (nth i zs 1)) (seq 0 8)) in *.
+  assert (HZl : length Zs = 8%nat) by (unfold Zs; rewrite map_length, seq_length; reflexivity).
+  pose proof (batch_inv_correct sm2_p p_pos (inv_p ZOps) Zs ltac:(lia)) as Hb.
+  rewrite HZl in Hb. specialize (Hb Hinv i ltac:(lia)).
+  assert (HZi : nth i Zs 0 = jac_Z ZOps (sm2_mulG ZOps (nth i ks 0)) (nth i zs 1)).
+  { unfold Zs. apply (nth_map_seq (fun i => jac_Z ZOps (sm2_mulG ZOps (nth i ks 0)) (nth i zs 1))). lia. }
+  rewrite HZi in Hb.
+  unfold enc_pre_slot. cbv zeta. f_equal.
+  pose proof (mulG_ok (nth i ks 0)) as Hok.
+  destruct (sm2_mulG ZOps (nth i ks 0)) as [[x y]|].
+  - cbn [jac_X jac_Y jac_Z get_x get_y ntoZ ZOps] in *. unfold pt_ok, pt_okp in Hok.
+    f_equal; [apply jac_back_x|apply jac_back_y]; try lia; exact Hb.
+  - cbn [jac_Z] in Hb. rewrite Z.mul_0_l, Z.mod_0_l, Z.mod_1_l in Hb by (pose proof p_gt_1; lia). discriminate.
+Qed.
+
+(* sm2_do_encrypt_ex with a slot holding (k, [k]G) is the body of sm2_do_encrypt for nonce k *)
+Theorem encrypt_ex_eq_encrypt (NO : numops) (P : point NO) k m :
+  len_ok m = true ->
+  do_encrypt_ex NO P (k, (get_x NO (sm2_mulG NO k), get_y NO (sm2_mulG NO k))) m =
+  match enc_try NO P m k with Some c => ExOk c | None => ExRetry end.
+Proof.
+  intros Hl. unfold do_encrypt_ex, enc_try. rewrite Hl. cbn [negb fst snd]. cbv zeta.
+  destruct (all_zero _); reflexivity.
+Qed.
+
+Theorem encrypt_ex_bad_length (NO : numops) (P : point NO) pc m :
+  len_ok m = false -> do_encrypt_ex NO P pc m = ExErr.
+Proof. intros Hl. unfold do_encrypt_ex. rewrite Hl. reflexivity. Qed.
